@@ -216,6 +216,15 @@ func monitor(o *c.Out, k *Case) []c.Hit {
 		h.add("no-result:"+k.Side+"-fold", "a combined action", k.Result.Kind+" "+k.Result.Note)
 		return h.hits
 	}
+	switch k.Side {
+	case "legacy_req":
+		// only the variables are observable through the dispatcher
+		checkReq(h, "legacy-req-spoe", viewOfVars("req", k.Vars))
+		return h.hits
+	case "legacy_resp":
+		checkResp(h, "legacy-resp-spoe", viewOfVars("resp", k.Vars))
+		return h.hits
+	}
 	if k.Side == "req" {
 		checkReq(h, "req-fold", viewOfRes(k.Result))
 		checkReq(h, "req-spoe", viewOfVars("req", k.Vars))
@@ -423,6 +432,9 @@ func checkResp(h *hitter, site string, v view) {
 func checkEncoding(h *hitter, site string, r Res, v view) {
 	want := fmt.Sprintf("variables carrying kind %s, status %d, body %q, headers %s", r.Kind, r.Status, r.Body,
 		showMap(r.Headers))
+	if r.Kind == kModH && len(r.Headers) == 0 && v.Kind == kNoop {
+		return // a header modification without edits may be encoded as nothing
+	}
 	if v.Kind != r.Kind {
 		h.add("encoding-kind:"+site, want, "variables read as kind "+v.Kind)
 		return
@@ -444,7 +456,9 @@ func checkEncoding(h *hitter, site string, r Res, v view) {
 		}
 	}
 	if !v.DumpSeen {
-		h.add("encoding-headers:"+site, want, "no header variable")
+		if len(r.Headers) > 0 {
+			h.add("encoding-headers:"+site, want, "no header variable")
+		}
 		return
 	}
 	if ok, seen := headersAgree(v, nonNilMap(r.Headers)); !ok {
